@@ -31,6 +31,7 @@ func verifStep(op, name string) error {
 		if at != 0 && p.calls == at {
 			p.failAt[i] = 0
 			p.failed++
+			p.trace[len(p.trace)-1] += " FAILED"
 			return &fs.PathError{Op: op, Path: name, Err: errVerifInjected}
 		}
 	}
@@ -158,6 +159,20 @@ func VerifCollectionCommit() {
 		}
 		b, rerr := os.ReadFile(fontDir + "/Other.gob")
 		vp.Assert(rerr == nil && string(b) == "UNRELATED", "an unrelated font was modified")
+		// durability (C07): success is reported only if the font directory was flushed after the last
+		// font was published into it - a flush that failed does not count
+		lastPublish, lastFlush := -1, -1
+		for i, t := range vplan.trace {
+			for _, r := range results {
+				if t == "rename "+fontDir+"/"+r.PostScriptName+".gob" {
+					lastPublish = i
+				}
+			}
+			if t == "syncdir "+fontDir {
+				lastFlush = i
+			}
+		}
+		vp.Assert(lastPublish >= 0 && lastFlush > lastPublish, "success reported although the font directory was not flushed after the last font was published (a power loss can undo the publication)")
 		return
 	}
 	switch vplan.failed {
